@@ -662,6 +662,7 @@ pub fn process_line(v: &Value, want: &Want, rep: &mut Report) {
     let cxs: Vec<Ctx> = specs.iter().map(Ctx::new).collect();
     let hs = hash_str(&h.to_string());
     rep.behaviours += 1;
+    let kept_before = rep.violations.len();
     if !rep.distinct.insert(hs) {
         rep.bump("duplicate_histories", 1);
         return;
@@ -684,4 +685,7 @@ pub fn process_line(v: &Value, want: &Want, rep: &mut Report) {
     run_type::<m6::M6>(h, &ops, &specs, &cxs, want, rep);
     run_type::<m8::M8>(h, &ops, &specs, &cxs, want, rep);
     run_type::<m10::M10>(h, &ops, &specs, &cxs, want, rep);
+    for x in rep.violations.iter_mut().skip(kept_before) {
+        x["line"] = v.clone();
+    }
 }
